@@ -69,33 +69,50 @@ impl BufferedWriter for HtmlWriter {
     }
 }
 
+/// Escape the HTML metacharacters `&`, `<` and `>` byte-wise. All three are ASCII, so this
+/// is also correct if `buf` ends in the middle of a multi-byte UTF-8 sequence.
+fn html_escape_bytes(buf: &[u8]) -> Vec<u8> {
+    let mut escaped = Vec::with_capacity(buf.len());
+    for byte in buf {
+        match byte {
+            b'&' => escaped.extend_from_slice(b"&amp;"),
+            b'<' => escaped.extend_from_slice(b"&lt;"),
+            b'>' => escaped.extend_from_slice(b"&gt;"),
+            _ => escaped.push(*byte),
+        }
+    }
+    escaped
+}
+
 impl std::io::Write for HtmlWriter {
     fn write(&mut self, buf: &[u8]) -> std::io::Result<usize> {
+        // The text written here (diagnostics) quotes user input, so it needs to be escaped
+        let escaped = html_escape_bytes(buf);
+
         if let Some(color) = &self.color {
             if color.fg() == Some(&Color::Red) {
                 self.buffer
                     .write_all("<span class=\"numbat-diagnostic-red\">".as_bytes())?;
-                let size = self.buffer.write(buf)?;
+                self.buffer.write_all(&escaped)?;
                 self.buffer.write_all("</span>".as_bytes())?;
-                Ok(size)
             } else if color.fg() == Some(&Color::Blue) {
                 self.buffer
                     .write_all("<span class=\"numbat-diagnostic-blue\">".as_bytes())?;
-                let size = self.buffer.write(buf)?;
+                self.buffer.write_all(&escaped)?;
                 self.buffer.write_all("</span>".as_bytes())?;
-                Ok(size)
             } else if color.bold() {
                 self.buffer
                     .write_all("<span class=\"numbat-diagnostic-bold\">".as_bytes())?;
-                let size = self.buffer.write(buf)?;
+                self.buffer.write_all(&escaped)?;
                 self.buffer.write_all("</span>".as_bytes())?;
-                Ok(size)
             } else {
-                self.buffer.write(buf)
+                self.buffer.write_all(&escaped)?;
             }
         } else {
-            self.buffer.write(buf)
+            self.buffer.write_all(&escaped)?;
         }
+
+        Ok(buf.len())
     }
 
     fn flush(&mut self) -> std::io::Result<()> {
